@@ -137,6 +137,7 @@ struct Exec {
     std::vector<std::vector<CRec>> crecs;                 // per slot
     std::vector<std::map<int, std::vector<int>>> mvp;     // per slot: m -> vp
     std::vector<std::map<int, std::set<int>>> mdefs;      // per slot: m -> defs
+    std::vector<bool> fresh;                              // per slot: successful update, no catalog change since
 };
 static Exec* g_exec = nullptr;
 
@@ -220,6 +221,7 @@ static void run_ops(const Script& sc, const std::vector<std::string>& binding) {
     ex.crecs.resize(np);
     ex.mvp.resize(np);
     ex.mdefs.resize(np);
+    ex.fresh.assign(np, false);
     for (auto& b : binding) {
         IRunner* r = make_runner(b);
         if (!r) {
@@ -230,13 +232,43 @@ static void run_ops(const Script& sc, const std::vector<std::string>& binding) {
         r->begin();
         ex.runners.push_back(r);
     }
+    std::vector<Op> ops;
     for (const Op& op : sc.ops) {
+        ops.push_back(op);
+    }
+    for (std::size_t oi = 0; oi < ops.size(); ++oi) {
+        const Op op = ops[oi];
+        if (op.k == "A" && op.p >= 0 && op.p < (int)np && ex.fresh[op.p]) {
+            // observe everything: outcome table and next slots of every declared method
+            std::vector<Op> exp;
+            for (auto& kv : ex.mvp[op.p]) {
+                Op t;
+                t.k = "T";
+                t.p = op.p;
+                t.a = {kv.first};
+                exp.push_back(t);
+                t.k = "X";
+                exp.push_back(t);
+            }
+            ops.insert(ops.begin() + oi + 1, exp.begin(), exp.end());
+            continue;
+        }
         if (op.p < 0 || op.p >= (int)np) {
             emit("{\"e\":\"badop\"}");
             continue;
         }
         IRunner* r = ex.runners[op.p];
         std::string P = "\"p\":" + std::to_string(op.p);
+        const bool observing = op.k == "T" || op.k == "CT" || op.k == "R" || op.k == "C" || op.k == "X" ||
+                               op.k == "L" || op.k == "RT" || op.k == "A";
+        if (observing && !ex.fresh[op.p]) {
+            // legal use only: nothing is observed between a catalog change (or a failed update) and the next update
+            emit("{\"e\":\"skip\"," + P + "}");
+            continue;
+        }
+        if (!observing && op.k != "u" && op.k != "h") {
+            ex.fresh[op.p] = false;
+        }
         if (op.k == "c") {
             int rr = op.a[0], c = op.a[1], abs = op.a[2], n = op.a[3];
             std::vector<int> bases(op.a.begin() + 4, op.a.begin() + 4 + n);
@@ -284,6 +316,7 @@ static void run_ops(const Script& sc, const std::vector<std::string>& binding) {
         } else if (op.k == "u") {
             UpdateResult ur = r->update();
             std::string s = "{\"e\":\"update\"," + P;
+            ex.fresh[op.p] = ur.res == UpdateResult::ok;
             if (ur.res == UpdateResult::ok) {
                 s += ",\"res\":\"ok\",\"c\":0,\"rep\":{\"cells\":" + std::to_string(ur.rep.cells) +
                      ",\"concrete_cells\":" + std::to_string(ur.rep.concrete_cells) +
